@@ -296,7 +296,7 @@ def synthmark(repo):
     return res
 
 
-def aliasattr(repo):
+def aliasattr(repo, clauses=("carry", "attribute_clauses", "anonymous_own")):
     """R-ALIASATTR (C06): an anonymous `bits:` field is rewritten into a hidden field (always `[text_output: "Skip"]`) plus
     one alias per member, and it is the alias that text output prints.  What the user wrote on the member and that
     governs text output therefore has to be carried to the alias: inside the member loop of _add_anonymous_aliases the
@@ -325,10 +325,12 @@ def aliasattr(repo):
     if alias is None:
         raise AnalysisError("_add_anonymous_aliases: alias construction not found")
     body = ast.unparse(loop)
-    res.instances = 3
-    if not any(k.arg == "name" and mem in ast.unparse(k.value) for k in ctor.keywords):
+    res.instances = 3 if "carry" in clauses else 0
+    if "carry" not in clauses:
+        pass
+    elif not any(k.arg == "name" and mem in ast.unparse(k.value) for k in ctor.keywords):
         res.add(f"{m.rel}|_add_anonymous_aliases|name", "the alias does not take the member's name", m.rel, ctor.lineno, f.name)
-    if not re.search(r"builder\(" + alias + r"\)\.abbreviation\.CopyFrom\(\s*" + mem + r"\.abbreviation", body):
+    if "carry" in clauses and not re.search(r"builder\(" + alias + r"\)\.abbreviation\.CopyFrom\(\s*" + mem + r"\.abbreviation", body):
         res.add(f"{m.rel}|_add_anonymous_aliases|abbreviation", "the alias does not take the member's abbreviation", m.rel, ctor.lineno, f.name)
     carried = False
     for n in ast.walk(loop):
@@ -336,10 +338,49 @@ def aliasattr(repo):
             t = ast.unparse(n)
             if "TEXT_OUTPUT" in t and re.search(alias + r"\.attribute\.(append|extend)\(", t):
                 carried = True
-    if not carried:
+                # what is copied is a *synthetic* twin: anything wrong with it is reported a second time at a
+                # synthetic location, which hides the group (a lookup that fails first on the twin leaves the
+                # original unresolved -> AttributeError later) or, in the back end, prints `[compiler bug]`.  The
+                # copy is therefore limited to what cannot be diagnosed: the core attribute (no back-end qualifier)
+                # with a literal string value.
+                if "attribute_clauses" in clauses:
+                    res.instances += 2
+                    guards = [ast.unparse(x.test) for x in ast.walk(n) if isinstance(x, ast.If) and "TEXT_OUTPUT" in ast.unparse(x.test)]
+                    g = " ".join(guards)
+                    if "back_end" not in g:
+                        res.add(f"{m.rel}|_add_anonymous_aliases|copy-qualified", "a back-end-qualified `(cpp) text_output` on a member of an "
+                                "anonymous bits is copied to the synthetic alias: the back end rejects both and prints the copy's error "
+                                "at `[compiler bug]`", m.rel, n.lineno, f.name)
+                    if "string_constant" not in g:
+                        res.add(f"{m.rel}|_add_anonymous_aliases|copy-reference", "`[text_output: Foo.skipp]` (a reference instead of a string) "
+                                "is copied to the synthetic alias: the failed lookup is reported on the copy only, the group is hidden and "
+                                "the next pass dereferences the unresolved reference", m.rel, n.lineno, f.name)
+    if not carried and "carry" in clauses:
         res.add(f"{m.rel}|_add_anonymous_aliases|text_output", f"the aliases created for the members of an anonymous bits do not inherit "
                 f"`[text_output: ...]` from `{mem}.attribute`: `[text_output: \"Skip\"]` on such a member is accepted and ignored (the "
                 "hidden bits field is skipped, the alias is printed)", m.rel, ctor.lineno, f.name)
+    # the anonymous field itself: the pass appends a synthetic `[text_output: "Skip"]` to it.  A text_output the user
+    # wrote there would be a duplicate whose error group mentions the synthetic twin (hidden; attribute_checker returns
+    # before normalising and check_constraints crashes on the half-finished IR), so the pass has to report it itself:
+    # the loop over the anonymous field's own attributes appends to `errors`.
+    if "anonymous_own" in clauses:
+        res.instances += 1
+        outer = None
+        for n in walk_no_nested_funcs(f.node):
+            if isinstance(n, ast.For) and ast.unparse(n.iter).endswith("structure.field") and loop in list(ast.walk(n)) and n is not loop:
+                outer = n
+        own = False
+        if outer is not None:
+            fld = outer.target.id if isinstance(outer.target, ast.Name) else None
+            for n in ast.walk(outer):
+                if isinstance(n, ast.For) and fld and ast.unparse(n.iter) == f"{fld}.attribute" and "TEXT_OUTPUT" in ast.unparse(n) \
+                        and "errors.append" in ast.unparse(n):
+                    own = True
+        if not own:
+            res.add(f"{m.rel}|_add_anonymous_aliases|own-text_output", "a `[text_output: ...]` written at the top of an anonymous `bits:` body "
+                    "collides with the synthetic Skip the pass adds: the duplicate-attribute group is hidden and "
+                    "constraints._check_allowed_in_bits ends in TypeError; the pass must report the attribute itself",
+                    m.rel, f.node.lineno, f.name)
     res.analysed = [m.rel]
     return res
 
